@@ -22,7 +22,7 @@ def sh(cmd, cwd, timeout=3600, env=None):
     return r.returncode, (r.stdout + r.stderr)
 
 
-def confirm(wt, k, pid):
+def confirm(wt, k, pid, dstname=None):
     sd = os.path.join(wt, "_seed", k)
     patch = os.path.join(sd, "patch.diff")
     rec = {"worktree": wt, "at": time.strftime("%Y-%m-%d %H:%M")}
@@ -50,7 +50,7 @@ def confirm(wt, k, pid):
     rec["confirmed"] = ok
     print(json.dumps(rec, indent=1))
     if ok:
-        dst = os.path.join("/verif/seeded", f"{pid}-{k}")
+        dst = os.path.join("/verif/seeded", dstname or f"{pid}-{k}")
         os.makedirs(dst, exist_ok=True)
         shutil.copy(patch, dst)
         shutil.copy(os.path.join(sd, "demo.py"), dst)
@@ -114,5 +114,5 @@ def detect(name, checks, budget="240"):
 
 if __name__ == "__main__":
     if sys.argv[1] == "confirm":
-        sys.exit(confirm(*sys.argv[2:5]))
+        sys.exit(confirm(*sys.argv[2:6]))
     sys.exit(detect(*sys.argv[2:]))
